@@ -77,6 +77,15 @@ AREAS = {
         "targets": ["Base/Str.vo", "Proofs/CliProofs.vo"],
         "property": "C16 (confirmTypes of internal/shoot/generatorbase.go = confirm_specified / the type-list choice of run_loaded; Contains = mem)",
     },
+    # stage 6: the file-system side
+    "writeproto": {
+        "module": "WriteProtoGen",
+        "bridge": "Bridge/WriteProtoBridge.v",
+        "prims": ["GoPrims", "FsPrims"],
+        "targets": ["Base/Str.vo", "Proofs/FsProofs.vo"],
+        "property": "C17 C18 (notedownSrc, the write loop / message / Clean order of main, Clean, isAllInOneFile, isGeneratedBy: "
+                    "the system calls issued = plan / faulted plan k of Model/Fs.v)",
+    },
     "enum": {
         "module": "EnumGen",
         "bridge": "Bridge/EnumBridge.v",
